@@ -134,7 +134,7 @@ class _Builder:
         rng = self.rng
         self.branch += 1
         b = self.branch
-        n = rng.choice([1, 1, 2, 2, 2, 3, 3, 4, 5, 6, 6, 8, 9, 12, 20, 20, 33, 64])
+        n = rng.choice(self.opts.get("group_choices", [1, 1, 2, 2, 2, 3, 3, 4, 5, 6, 6, 8, 9, 12, 20, 20, 33, 64]))
         toks = ["return"]
         numeric = rng.random() < 0.08
         for g in range(n):
@@ -224,7 +224,7 @@ class _Builder:
         if depth <= 0 or rng.random() < 0.35 or not self.fields_pool or self.p.n_returns >= self.opts.get("max_returns", 16):
             return self.return_stmt()
         toks = ["if"] + self.pred(2) + ["{"] + self.conditional(depth - 1) + ["}"]
-        n_elif = rng.choice([0, 0, 1, 1, 2, 3, 4, 4, 7, 10])
+        n_elif = rng.choice(self.opts.get("elif_choices", [0, 0, 1, 1, 2, 3, 4, 4, 7, 10]))
         for _ in range(n_elif):
             if self.p.n_returns >= self.opts.get("max_returns", 16):
                 break
